@@ -185,6 +185,13 @@ package internals
 //@   ensures[C02] result == (L(self) == empty())
 
 //@ spec ctxexec(x) = ite(istype(x, *SchemaCtx), x.(*SchemaCtx).ExecCtx, x.(*ExecCtx))
+// ctxval(c, k) NAMES the value the execution context holds under key k (WithCtxValue).
+//@ specfun ctxval(Iface, String) Iface
+//@ iface Ctx.Get(self, key)
+//@   requires self != nil
+//@   pure
+//@   names result == ctxval(self, key)
+
 //@ iface Ctx.AddIssue(self, e)
 //@   requires (istype(self, *SchemaCtx) && wfctx(self.(*SchemaCtx))) || (istype(self, *ExecCtx) && wfexec(self.(*ExecCtx)))
 //@   requires e != nil
